@@ -191,7 +191,32 @@ def canon_items(items):
 
 
 OPTION_SETS = [dict(DEFAULT_OPTS), dict(DEFAULT_OPTS, normalization="rust", other_variant=True, skip_none=True, deprecation="warn",
-                                         response_derives="Serialize,Debug,Clone", variables_derives="Deserialize,Debug")]
+                                         response_derives="Serialize,Debug,Clone", variables_derives="Deserialize,Debug"),
+               dict(DEFAULT_OPTS, deprecation="deny", custom_scalars_module="crate::scalars")]
+
+
+def harvest(tier):
+    """Schemas and operations of the *other* checks' input spaces (they feed the generator SDL only): the equivalence has to
+    hold on them as well. Yields (description, schema, [(name, doc)])."""
+    from checks import c10, c12, c16
+    core = space.core_schema()
+    docs = []
+    for focus, labels, doc in space.operation_space("quick"):
+        if len(labels) == 1 and not gql.validate(core, doc):
+            docs.append(("%s %s #%d" % (focus, labels[0], len(docs)), doc))
+    yield "CORE, every single-item operation of the operation space", core, docs
+    vsets = c10.value_sets("quick")
+    for vs in (vsets if tier == "thorough" else vsets[:11] + vsets[66:] ):
+        schema, doc = c10.build(vs)
+        yield "C10 enum " + ",".join(vs), schema, [("Q", doc)]
+    exprs = gql.all_type_exprs("ID", 2)
+    yield "C16 ID fields", c16.id_schema(exprs), [("%s i%d" % (pos, k), c16.op_for(pos, k)[0]) for k in range(len(exprs)) for pos in c16.POSITIONS]
+    qdoc = Doc([Op("query", "Op", [Field("f", args=[("a", "$a")])], [("a", "In0", None)])])
+    for n, edges, oneof in c12.enumerate_graphs("quick"):
+        if n == 1 or (n == 2 and tier == "thorough" and not any(len(v) > 1 for v in edges.values())) or \
+                (n == 2 and all(tuple(v) in ((), ("T",), ("[T]",)) for v in edges.values())):
+            if c12.valid_oneof(n, edges, oneof):
+                yield "C12 graph n=%d %s oneOf=%s" % (n, {"%d->%d" % k: v for k, v in edges.items() if v}, list(oneof)), c12.graph_schema(n, edges, oneof), [("Q", qdoc)]
 
 
 def run(tier):
@@ -217,12 +242,17 @@ def run(tier):
             Field("nodes", [TN(), Field("id"), Inline("Org", [Field("kind")]), Inline("Bot", [Field("version")])]),
             Field("search", [TN(), Field("id")], args=[("filter", "$f")])]
     schemas.append(("CORE", {"oneof", "iface"}, core, [("Q", Doc(space.used_fragments(csel, lib) + [Op("query", "Op", csel, [("f", "Filter", None)])]))]))
+    n_lattice = len(schemas)
+    for desc, schema, docs in harvest(tier):
+        schemas.append(("harvest: " + desc, {"harvest"} | ({"oneof"} if any(t.one_of for t in schema.types.values()) else set()), schema, docs))
     jobs = []
     for si, (desc, fs, schema, docs) in enumerate(schemas):
         rends = renderings(schema)
+        if "harvest" in fs:
+            rends = [r for r in rends if r[0] in ("sdl", "json", "json_wrapped")]
         for dname, doc in docs:
             q = gql.render_doc(doc)
-            for oi, opts in enumerate(OPTION_SETS):
+            for oi, opts in enumerate(OPTION_SETS if "harvest" not in fs else OPTION_SETS[:1]):
                 for rname, ext, text, keeps in rends:
                     jobs.append({"si": si, "doc": dname, "oi": oi, "rendering": rname, "keeps": keeps,
                                  "req": gen_request(text, q, opts, ext=ext, inspect=not keeps), "query": q})
@@ -241,7 +271,7 @@ def run(tier):
         if ref_r["status"] != "ok":
             # the SDL rendering refuses this operation (e.g. no root type of that kind): every other rendering of the
             # same schema has to refuse it too
-            if not dname.endswith("shadow"):
+            if not dname.endswith("shadow") and "harvest" not in fs:   # (whether a harvested input is supported is its own check's question)
                 rep.violation("sdl_generation_failed", label0, ref_r.get("msg"))
             for j, r in members[1:]:
                 transitions += 1
@@ -271,7 +301,7 @@ def run(tier):
         if len(samples) < 2000:
             samples.append({"schema": desc, "operation": dname, "option_set": oi, "renderings": [j["rendering"] for j, _ in members]})
     cov = {
-        "states": len(schemas), "transitions": transitions, "traces_validated_against_impl": transitions,
+        "states": len(schemas), "lattice_schemas": n_lattice, "harvested_schemas": len(schemas) - n_lattice, "transitions": transitions, "traces_validated_against_impl": transitions,
         "evaluations": len(jobs), "distinct_nontrivial": len(schemas) - 1,
         "rule": "state = schema built from a subset of 16 constructs (interface+implementor, second implementor, union, enums, "
                 "custom scalars, nested list/non-null types, deprecation with / without reason on objects and interfaces, "
@@ -279,7 +309,9 @@ def run(tier):
                 "type, argument defaults, deprecated enum values): all subsets of size <= %d, the full set, and CORE; transition "
                 "= comparison of one rendering (3 SDL extensions, bare / wrapped JSON, JSON without built-ins but with __ types, "
                 "kind-grouped and reversed type orders, folded extensions) with the SDL rendering, per covering operation "
-                "(query / mutation / subscription) and option set (2)" % k,
+                "(query / mutation / subscription) and option set (3); plus the schemas and operations harvested from the input spaces "
+                "of C01 (CORE singles), C10 (enum definitions), C12 (small input graphs) and C16 (ID expressions), which those checks "
+                "feed as SDL only: SDL vs bare / wrapped JSON" % k,
         "exhaustive": True,
         "samples": pick_samples(samples, 5),
     }
